@@ -57,7 +57,7 @@ struct EpHarness : Harness {
     std::vector<std::string> props() const override { return {"C17"}; }
     std::vector<std::string> probes(const std::string &) const override {
         return {"eintr_retried", "eagain_retried", "zero_return_retried", "partial_then_rest", "hard_error_after_prefix", "octet_driver_through_chunk_api",
-                "chunk_driver_through_octet_api", "aux_smaller_than_n_multiple_rounds", "drain_end_mid_chunk", "drain_to_end_of_stream", "invalid_count_refused", "source_lends_its_buffer", "stream_in_library_buffer_source", "stream_in_library_chunk_source", "output_in_library_buffer_sink", "chunk_list_with_empty_chunk", "trivial_endpoint", "endpoints_from_static_initialisers", "second_plumbing_job_during_a_sink_call", "count_of_64k_octets_or_more_really_moved", "huge_transfer_in_one_call", "huge_transfer_in_pieces", "huge_piece_of_4gib_or_more"};
+                "chunk_driver_through_octet_api", "aux_smaller_than_n_multiple_rounds", "drain_end_mid_chunk", "drain_to_end_of_stream", "invalid_count_refused", "source_lends_its_buffer", "stream_in_library_buffer_source", "stream_in_library_chunk_source", "output_in_library_buffer_sink", "chunk_list_with_empty_chunk", "trivial_endpoint", "endpoints_from_static_initialisers", "second_plumbing_job_during_a_sink_call", "auxiliary_buffer_is_the_sources_own_buffer", "count_of_64k_octets_or_more_really_moved", "huge_transfer_in_one_call", "huge_transfer_in_pieces", "huge_piece_of_4gib_or_more"};
     }
     uint64_t runs(const std::string &, const Tier &t) const override { return t.thorough() ? 12000000 : 3000000; }
     unsigned time_limit(const Json &plan) const override { const Json &ops = plan.get("ops"); for (size_t i = 0; i < ops.size(); ++i) if (ops.at(i).gets("op") == "n_cbc_long") return 1500; return 60; }
@@ -145,6 +145,7 @@ struct EpHarness : Harness {
             if (chunky && r.chance(1, 24)) n = r.chance(1, 2) ? 0 : -1;  // invalid counts: 0 and SSIZE_MAX+1
             o["n"] = (long long)n;
             if (r.chance(1, 6)) { Json ij = Json::arr(); ij.push((long long)r.below(6)); ij.push((long long)r.below(1 << 20)); o["intrude"] = ij; }
+            if (r.chance(1, 3)) o["alias"] = 1;
             o["ss"] = gen_script(r, maxscript, hard, so);
             o["ks"] = gen_script(r, maxscript, hard, ko);
             if (k.size() > 4 && (k.compare(k.size() - 4, 4, "_aux") == 0 || k.compare(k.size() - 3, 3, "_gb") == 0)) {
@@ -177,6 +178,7 @@ struct EpHarness : Harness {
         Ctx &c;
         SimSource src; SimSink snk;
         Source source; Sink sink;
+        ByteBuffer *real_src_buf = nullptr;   // the byte buffer behind source_from_buffer(), when the stream lives in one
         std::vector<uint8_t> exp;   // expected sink content
         size_t opi = 0;
         std::string site;
@@ -240,7 +242,7 @@ struct EpHarness : Harness {
                 }
                 if (at < total) add_buf(total - at, 0, 0);
             }
-            if (one) source_from_buffer(&inner_src, &bufs[0]);
+            if (one) { source_from_buffer(&inner_src, &bufs[0]); R.real_src_buf = &bufs[0]; }
             else {
                 chunks.chunk = bufs.data(); chunks.chunks = bufs.size(); chunks.active = 0;
                 if (g_bind_with_macros && bufs.size() == 3) { chunks = hm_byte_chunks3((ByteBuffer(*)[3])bufs.data()); COUNT("probe.chunk_list_from_BYTE_CHUNKS"); }
@@ -513,6 +515,14 @@ struct EpHarness : Harness {
         ByteBuffer ab; ab.data = aux.p; ab.size = (size_t)asz; ab.used = (size_t)aus; ab.offset = (size_t)aof;
         const size_t region = (size_t)(aus - aof);
         if (invalid) { n = 1; }
+        // the auxiliary buffer may be the very buffer the stream is read from (an application that has no other memory to spare): the plumbing then
+        // rewinds and refills the source's own buffer, which the unchanged library does correctly
+        // (only where the stream outlasts the call: once its buffer is exhausted the "auxiliary buffer" would have an empty designated region, which the
+        // harness never hands to the plumbing - see the assumptions)
+        const bool alias = is_aux && !is_gb && R.real_src_buf && o.geti("alias") != 0 && op != "drain_aux" && remaining > n && byte_buffer_rest(R.real_src_buf) > 0;
+        ByteBuffer *abp = alias ? R.real_src_buf : &ab;
+        if (alias) COUNT("probe.auxiliary_buffer_is_the_sources_own_buffer");
+        const uint64_t alias_extra = alias ? 8 * (uint64_t)byte_buffer_rest(R.real_src_buf) + 64 : 0;   // one pass may move everything the source's buffer holds
 
         enum Kind { ONE, SOME, ATMOST, EXACT, DRAIN } kind = ONE;
         if (op == "cbc") { kind = ONE; finished = WITH_BUDGET(c, budget, rc = sts_cbc(&R.source, &R.sink)); }
@@ -522,10 +532,10 @@ struct EpHarness : Harness {
         else if (op == "sts_atmost") { kind = ATMOST; finished = WITH_BUDGET(c, budget, rc = sts_atmost(&R.source, &R.sink, n)); }
         else if (op == "sts_n") { kind = EXACT; finished = WITH_BUDGET(c, budget, rc = sts_n(&R.source, &R.sink, n)); }
         else if (op == "sts_drain") { kind = DRAIN; finished = WITH_BUDGET(c, drain_budget, rc = sts_drain(&R.source, &R.sink)); }
-        else if (op == "some_aux") { kind = SOME; finished = WITH_BUDGET(c, budget, rc = sts_some_aux(&R.source, &R.sink, &ab)); }
-        else if (op == "atmost_aux") { kind = ATMOST; finished = WITH_BUDGET(c, budget, rc = sts_atmost_aux(&R.source, &R.sink, &ab, n)); }
-        else if (op == "n_aux") { kind = EXACT; finished = WITH_BUDGET(c, budget + 8 * n, rc = sts_n_aux(&R.source, &R.sink, &ab, n)); }
-        else if (op == "drain_aux") { kind = DRAIN; finished = WITH_BUDGET(c, drain_budget, rc = sts_drain_aux(&R.source, &R.sink, &ab)); }
+        else if (op == "some_aux") { kind = SOME; finished = WITH_BUDGET(c, budget + alias_extra, rc = sts_some_aux(&R.source, &R.sink, abp)); }
+        else if (op == "atmost_aux") { kind = ATMOST; finished = WITH_BUDGET(c, budget + alias_extra, rc = sts_atmost_aux(&R.source, &R.sink, abp, n)); }
+        else if (op == "n_aux") { kind = EXACT; finished = WITH_BUDGET(c, budget + 8 * n + alias_extra, rc = sts_n_aux(&R.source, &R.sink, abp, n)); }
+        else if (op == "drain_aux") { kind = DRAIN; finished = WITH_BUDGET(c, drain_budget, rc = sts_drain_aux(&R.source, &R.sink, abp)); }
         else if (is_gb) {
             g_lent = &ab; R.source.ext.getbuffer = lend_buffer; COUNT("probe.source_lends_its_buffer");
             if (op == "some_gb") { kind = SOME; finished = WITH_BUDGET(c, budget, rc = sts_some(&R.source, &R.sink)); }
@@ -540,7 +550,7 @@ struct EpHarness : Harness {
 
         const size_t moved_src = R.src.pos - sp0;
         std::vector<uint8_t> handed = R.stream(sp0, moved_src);
-        if (is_aux) {
+        if (is_aux && !alias) {
             // octets of the auxiliary block outside the designated region must be untouched;
             // n_aux/drain_aux rewind first, which moves the region to the front of the block
             size_t lo = (size_t)aof, hi = (size_t)aus;
@@ -570,7 +580,7 @@ struct EpHarness : Harness {
         if (kind == ONE && moved_src != 1) R.fail("count", "sts_cbc succeeded (rc=%zd) but the source handed out %zu octets", rc, moved_src);
         if (kind == ONE) want = 1;
         if (kind == ATMOST && (size_t)rc > n) R.fail("atmost", "moved %zd > asked %zu", rc, n);
-        if ((kind == SOME || kind == ATMOST) && is_aux && (size_t)rc > region) R.fail("atmost", "moved %zd > designated region %zu", rc, region);
+        if ((kind == SOME || kind == ATMOST) && is_aux && !alias && (size_t)rc > region) R.fail("atmost", "moved %zd > designated region %zu", rc, region);
         if (moved_src != want) R.fail("count", "result says %zu moved but the source handed out %zu", want, moved_src);
         if (!R.sink_is_exp_plus(handed) || handed.size() != want)
             R.fail("data", "sink did not receive exactly the %zu next stream octets (received %zu new, source handed out %zu)", want, R.snk.got.size() - R.exp.size(), moved_src);
